@@ -3256,6 +3256,7 @@ func lemmaForwardSession(raw *rawEnvelope) (e *Session, e3 *Session, accepted bo
 // readSource(r): where the bytes a reader delivers come from (io.TeeReader keeps it; a reader
 // that splices in other bytes - io.MultiReader over an old buffer - does not).
 //@ spec fn readSource(r io.Reader) io.Reader = uninterpreted
+//@ spec fn marshalFailure(err error) bool = uninterpreted  ## the error of an Encode that failed before writing anything (the value does not marshal)
 //@ func (*tcpTransport).setConn :: (t, conn) ()
 //@   props C01 C04 C09 C10 C12 C16
 //@   requires t != nil && conn != nil && t.ReadLimit >= 0
@@ -3293,6 +3294,7 @@ func lemmaForwardSession(raw *rawEnvelope) (e *Session, e3 *Session, accepted bo
 //@   ensures [C09,C12] @stillopen result == nil ==> t.conn != nil && !t.eof  ## Transport model: a successful Send leaves the transport connected
 //@   ensures [C12] @monotone t.conn != nil && !t.eof ==> old(t.conn != nil && !t.eof)
 //@   ensures [C12,C14] @disconnectedmeansreleased old(t.conn != nil && !t.eof) && !(t.conn != nil && !t.eof) ==> t.ctxConn.conn.closed
+//@   checks [C12] @unsendablekeepsconnection old(t.conn != nil && !t.eof) && ncalls("(*encoding/json.Encoder).Encode") >= 1 && marshalFailure(resultof("(*encoding/json.Encoder).Encode", 0)) == true ==> t.conn != nil && !t.eof && t.ctxConn.conn.closed == old(t.ctxConn.conn.closed)  ## an envelope that does not marshal never reached the wire: refusing it must not take the receiving direction down - what the peer reported as sent is still to be yielded
 
 //@ func (*tcpTransport).Encryption :: (t) (result)
 //@   props C09 C10
